@@ -77,6 +77,8 @@ type interpreter struct {
 	tainted     bool
 	vcwd        string
 	egErr       map[*value]value
+	gomaxprocs  int
+	syncMaps    map[*value]*amap
 	goOrder     []int
 	goPending   [][2]value
 	mapRangers  []string
